@@ -101,6 +101,21 @@ def _is_name_pure(e: ast.AST) -> bool:
         return all(_is_name_pure(x) for x in [e.left] + e.comparators)  # identity tests run no user code
     if isinstance(e, ast.UnaryOp) and isinstance(e.op, ast.Not):
         return isinstance(e.operand, ast.Compare) and _is_name_pure(e.operand)
+    if _is_int_arith(e) and not isinstance(e, (ast.Name, ast.Constant)):
+        return True  # + - * over loop counters and integer literals: an immutable int, no user code, nothing raised
+    return False
+
+
+_INT_NAMES: set = set()  # names of the function being processed that are known to hold an int (range()/enumerate() counters)
+
+
+def _is_int_arith(e: ast.AST) -> bool:
+    if isinstance(e, ast.Constant):
+        return type(e.value) is int
+    if isinstance(e, ast.Name):
+        return e.id in _INT_NAMES
+    if isinstance(e, ast.BinOp) and isinstance(e.op, (ast.Add, ast.Sub, ast.Mult)):
+        return _is_int_arith(e.left) and _is_int_arith(e.right)
     return False
 
 
@@ -357,14 +372,56 @@ def drop_sticky_flag_tests(fn: ast.AST) -> None:
         elif isinstance(n, ast.Name) and isinstance(n.ctx, (ast.Store, ast.Del)):
             stores.setdefault(n.id, 0)
             stores[n.id] += 1
+    simple = (ast.Name, ast.Constant, ast.Compare, ast.BoolOp, ast.UnaryOp, ast.Not, ast.And, ast.Or, ast.Load, ast.cmpop)
     plain: dict = {}
     for n in ast.walk(fn):
         if isinstance(n, ast.Assign) and len(n.targets) == 1 and isinstance(n.targets[0], ast.Name) and isinstance(n.value, ast.Constant) and n.value.value in (True, False) and isinstance(n.value.value, bool):
             plain[n.targets[0].id] = plain.get(n.targets[0].id, 0) + 1
+    # ``flag = flag and cond`` - only the truth value of the flag is ever used - is ``if not cond: flag = False``
+    def conj(n: ast.AST) -> bool:
+        return isinstance(n, ast.Assign) and len(n.targets) == 1 and isinstance(n.targets[0], ast.Name) and isinstance(n.value, ast.BoolOp) and isinstance(n.value.op, ast.And) and isinstance(n.value.values[0], ast.Name) and n.value.values[0].id == n.targets[0].id and not any(isinstance(y, ast.Name) and y.id == n.targets[0].id for v in n.value.values[1:] for y in ast.walk(v))
+
+    conjs = [n for n in ast.walk(fn) if conj(n)]
+    if conjs:
+        tests: set = set()
+
+        def mark(t: ast.AST) -> None:
+            if isinstance(t, ast.Name):
+                tests.add(id(t))
+            elif isinstance(t, ast.BoolOp):
+                for v in t.values:
+                    mark(v)
+            elif isinstance(t, ast.UnaryOp) and isinstance(t.op, ast.Not):
+                mark(t.operand)
+
+        for n in ast.walk(fn):
+            if isinstance(n, (ast.If, ast.While, ast.IfExp)):
+                mark(n.test)
+        for n in conjs:
+            tests.add(id(n.value.values[0]))
+        for n in conjs:
+            x = n.targets[0].id
+            k = sum(1 for c in conjs if c.targets[0].id == x)
+            if x in bad or stores.get(x) != plain.get(x, 0) + k:
+                continue
+            if any(isinstance(y, ast.Name) and y.id == x and isinstance(y.ctx, ast.Load) and id(y) not in tests for y in ast.walk(fn)):
+                continue
+            rest = n.value.values[1:]
+            if not all(isinstance(y, simple) and not (isinstance(y, ast.UnaryOp) and not isinstance(y.op, ast.Not)) and not (isinstance(y, ast.cmpop) and not isinstance(y, (ast.Eq, ast.NotEq, ast.Is, ast.IsNot))) for v in rest for y in ast.walk(v)):
+                continue
+            cond = rest[0] if len(rest) == 1 else ast.BoolOp(op=ast.And(), values=rest)
+            new_if = ast.copy_location(ast.If(test=nnf(cond, False), body=[ast.copy_location(ast.Assign(targets=[n.targets[0]], value=ast.Constant(value=False)), n)], orelse=[]), n)
+            for blk in ast.walk(fn):
+                for f in _BLOCKS:
+                    seq = getattr(blk, f, None)
+                    if isinstance(seq, list):
+                        for j, y in enumerate(seq):
+                            if y is n:
+                                seq[j] = new_if
+            plain[x] = plain.get(x, 0) + 1
     flags = {x for x, k in plain.items() if stores.get(x) == k and x not in bad}
     if not flags:
         return
-    simple = (ast.Name, ast.Constant, ast.Compare, ast.BoolOp, ast.UnaryOp, ast.Not, ast.And, ast.Or, ast.Load, ast.cmpop)
     for n in ast.walk(fn):
         if not (isinstance(n, ast.If) and not n.orelse and len(n.body) == 1 and isinstance(n.test, ast.BoolOp) and isinstance(n.test.op, ast.And)):
             continue
@@ -531,6 +588,41 @@ def canonical_tests(fn: ast.AST) -> None:
     T().visit(fn)
 
 
+def _skips_round(st: ast.If, depth: int = 0) -> bool:
+    """An if statement one of whose (nested, tail) arms is a lone ``continue`` while another arm falls through; at most
+    three arms fall through."""
+    leaves = []
+
+    def walk(node: ast.If, d: int) -> bool:
+        for arm in (node.body, node.orelse):
+            if arm and isinstance(arm[-1], ast.If) and d < 2 and not _terminates(arm):
+                if not walk(arm[-1], d + 1):
+                    return False
+            elif len(arm) == 1 and isinstance(arm[0], ast.Continue):
+                leaves.append('continue')
+            elif _terminates(arm):
+                leaves.append('exit')
+            else:
+                leaves.append('fall')
+        return True
+
+    if not walk(st, 0):
+        return False
+    nested = any(isinstance(arm[-1], ast.If) for arm in (st.body, st.orelse) if arm)
+    return nested and 'continue' in leaves and 1 <= leaves.count('fall') <= 3
+
+
+def _push_tail(st: ast.If, rest: list) -> None:
+    for attr in ('body', 'orelse'):
+        arm = getattr(st, attr)
+        if arm and _terminates(arm):
+            continue
+        if arm and isinstance(arm[-1], ast.If) and any(_terminates(a) or (a and isinstance(a[-1], ast.If)) for a in (arm[-1].body, arm[-1].orelse)):
+            _push_tail(arm[-1], rest)
+        else:
+            setattr(st, attr, arm + [_clone(r) for r in rest])
+
+
 def flatten_conditionals(fn: ast.AST) -> None:
     """Statement-level conditionals in one spelling:
     * ``if c: <exits>`` followed by R      ->  ``if c: <exits> else: R``        (guard clause == else arm)
@@ -561,6 +653,12 @@ def flatten_conditionals(fn: ast.AST) -> None:
                     elif st.orelse and i + 1 < len(seq) and _terminates(st.orelse) and not _terminates(st.body):
                         st.body = st.body + seq[i + 1:]
                         del seq[i + 1:]
+                        changed = True
+                    # ``if a: (if b: S else: continue)`` ; R  (in a loop)  ->  the rest R belongs to every arm that falls through
+                    if i + 1 < len(seq) and _skips_round(st) and len(seq) - i - 1 <= 4 and not any(isinstance(x, (ast.For, ast.AsyncFor, ast.While, ast.With, ast.AsyncWith, ast.Try, ast.ClassDef) + FUNC) for r in seq[i + 1:] for x in ast.walk(r)):
+                        rest = seq[i + 1:]
+                        del seq[i + 1:]
+                        _push_tail(st, rest)
                         changed = True
                     # nested ifs without else -> conjunction
                     if not st.orelse and len(st.body) == 1 and isinstance(st.body[0], ast.If) and not st.body[0].orelse:
@@ -846,6 +944,12 @@ def inline_temporaries(fn: ast.AST, only: typing.Optional[set] = None, sigs: typ
                 bound[x] = bound.get(x, 0) + 2
     for p in params:
         bound[p] = bound.get(p, 0) + 1  # a parameter is bound at entry: any store re-binds it
+    _INT_NAMES.clear()
+    for n in ast.walk(fn):
+        if isinstance(n, (ast.For, ast.AsyncFor)) and isinstance(n.iter, ast.Call) and isinstance(n.iter.func, ast.Name) and not n.iter.keywords or isinstance(n, ast.For) and isinstance(n.iter, ast.Call) and isinstance(n.iter.func, ast.Name) and n.iter.func.id == 'enumerate':
+            counter = n.target if n.iter.func.id == 'range' else (n.target.elts[0] if n.iter.func.id == 'enumerate' and isinstance(n.target, ast.Tuple) and n.target.elts and all(k.arg == 'start' and _is_int_arith(k.value) for k in n.iter.keywords) else None)
+            if isinstance(counter, ast.Name) and bound.get(counter.id, 0) == 1 and 'range' not in bound and 'enumerate' not in bound:
+                _INT_NAMES.add(counter.id)
 
     def stable(e: ast.AST) -> bool:
         inner = _inner_bound(e)
@@ -909,7 +1013,10 @@ def inline_temporaries(fn: ast.AST, only: typing.Optional[set] = None, sigs: typ
                 return out
 
             crosses_try = not _is_name_pure(v) and not isinstance(v, ast.Lambda) and any(try_depth(u) != try_depth(st) for u in uses)
-            if not is_stable or crosses_try:
+            # a lambda without defaults reads its free names when it is called: where the function object is created does
+            # not matter, whatever happens to those names in between
+            late_bound = isinstance(v, ast.Lambda) and not v.args.defaults and not any(d is not None for d in v.args.kw_defaults) and not early_uses
+            if (not is_stable and not late_bound) or crosses_try:
                 pass
             elif _is_name_pure(v):
                 ok = True
@@ -1276,6 +1383,77 @@ def unfold_for_else(fn: ast.AST) -> None:
             return unfold_for_else(fn)
 
 
+def unfold_next_search(fn: ast.AST) -> None:
+    """``x = next((v for v in IT if C(v)), None)`` ; ``if x is None: A else: B(x)`` (both arms leave)  ->
+    ``for x in IT: if C(x): B(x)`` ; ``A`` - provided C dereferences v (``v.attr`` evaluated unconditionally, an attribute None
+    does not have): an element that is None can then never be *found*, so "nothing found" and None are the same thing."""
+    def derefs(e: ast.AST, v: str) -> bool:
+        if isinstance(e, ast.Attribute):
+            if isinstance(e.value, ast.Name) and e.value.id == v and not e.attr.startswith('__') and not hasattr(None, e.attr):
+                return True
+            return derefs(e.value, v)
+        if isinstance(e, ast.BoolOp):
+            return derefs(e.values[0], v)
+        if isinstance(e, ast.IfExp):
+            return derefs(e.test, v)
+        if isinstance(e, ast.UnaryOp):
+            return derefs(e.operand, v)
+        if isinstance(e, ast.Compare):
+            return derefs(e.left, v) or derefs(e.comparators[0], v)
+        if isinstance(e, ast.Call):
+            return derefs(e.func, v) or any(derefs(a, v) for a in e.args if not isinstance(a, ast.Starred))
+        if isinstance(e, ast.Subscript):
+            return derefs(e.value, v) or derefs(e.slice, v)
+        if isinstance(e, ast.BinOp):
+            return derefs(e.left, v) or derefs(e.right, v)
+        return False
+
+    taken = {n.id for n in ast.walk(fn) if isinstance(n, ast.Name) and isinstance(n.ctx, ast.Store)}
+    for seq in list(_code_blocks(fn)):
+        for k in range(len(seq) - 1):
+            a, b = seq[k], seq[k + 1]
+            if not (isinstance(a, ast.Assign) and len(a.targets) == 1 and isinstance(a.targets[0], ast.Name) and isinstance(b, ast.If) and b.orelse):
+                continue
+            x = a.targets[0].id
+            c = a.value
+            if not (isinstance(c, ast.Call) and isinstance(c.func, ast.Name) and c.func.id == 'next' and 'next' not in taken and len(c.args) == 2 and not c.keywords and isinstance(c.args[1], ast.Constant) and c.args[1].value is None and isinstance(c.args[0], ast.GeneratorExp)):
+                continue
+            gen = c.args[0]
+            if len(gen.generators) != 1 or gen.generators[0].is_async or not gen.generators[0].ifs:
+                continue
+            g = gen.generators[0]
+            if not (isinstance(g.target, ast.Name) and isinstance(gen.elt, ast.Name) and gen.elt.id == g.target.id):
+                continue
+            v = g.target.id
+            if not derefs(g.ifs[0], v) or any(isinstance(y, (ast.Lambda, ast.GeneratorExp, ast.ListComp, ast.SetComp, ast.DictComp, ast.NamedExpr)) for cnd in g.ifs for y in ast.walk(cnd)):
+                continue
+            t = b.test
+            if isinstance(t, ast.Compare) and len(t.ops) == 1 and isinstance(t.left, ast.Name) and t.left.id == x and isinstance(t.comparators[0], ast.Constant) and t.comparators[0].value is None and isinstance(t.ops[0], (ast.Is, ast.IsNot)):
+                absent, found = (b.body, b.orelse) if isinstance(t.ops[0], ast.Is) else (b.orelse, b.body)
+            else:
+                continue
+            if not (_terminates(absent) and _terminates(found)) or any(isinstance(y, (ast.Break, ast.Continue)) for st in found for y in ast.walk(st)):
+                continue
+            inside = {id(y) for st in found for y in ast.walk(st)} | {id(t.left), id(a.targets[0])}
+            if any(isinstance(y, ast.Name) and y.id == x and id(y) not in inside for y in ast.walk(fn)) or x in _params(fn):
+                continue
+            if any(isinstance(y, FUNC + (ast.Lambda, ast.GeneratorExp, ast.ListComp, ast.SetComp, ast.DictComp)) and x in _names(y) for st in found for y in ast.walk(st)):
+                continue
+            if x in _names(g.iter) or any(x in _names(cnd) for cnd in g.ifs):
+                continue
+            conds = []
+            for cnd in g.ifs:
+                for y in ast.walk(cnd):
+                    if isinstance(y, ast.Name) and y.id == v:
+                        y.id = x
+                conds.append(cnd)
+            test = conds[0] if len(conds) == 1 else ast.BoolOp(op=ast.And(), values=conds)
+            loop = ast.copy_location(ast.For(target=ast.Name(id=x, ctx=ast.Store()), iter=g.iter, body=[ast.If(test=test, body=found, orelse=[])], orelse=[]), a)
+            seq[k:k + 2] = [loop] + absent
+            ast.fix_missing_locations(loop)
+            return unfold_next_search(fn)
+
+
 def unfold_generator_loops(fn: ast.AST) -> None:
     """``for T in (E for a in A for b in B if c): body``  ->  ``for a in A: for b in B: if c: T = E; body`` (a generator is
     advanced in lock-step with the loop that consumes it)."""
@@ -1554,6 +1732,38 @@ def sort_independent_assignments(fn: ast.AST) -> None:
                 x.id = '_'
         return ast.dump(c)
 
+    # ``x = <constant / fresh empty container>`` floats up past statements that do not mention x (it has no effect, reads
+    # nothing and nobody in between can tell whether x is bound yet)
+    captured = set()
+    for sc in [n for n in ast.walk(fn) if n is not fn and isinstance(n, FUNC + (ast.Lambda, ast.ClassDef))]:
+        captured |= _names(sc)
+    for h in [n for n in ast.walk(fn) if isinstance(n, ast.Try)]:
+        for part in h.handlers + h.finalbody:
+            captured |= _names(part)
+    binds: dict = {}
+    for n in ast.walk(fn):
+        if isinstance(n, ast.Name) and isinstance(n.ctx, (ast.Store, ast.Del)):
+            binds[n.id] = binds.get(n.id, 0) + 1
+
+    def initialiser(st: ast.stmt) -> bool:
+        if not (isinstance(st, ast.Assign) and len(st.targets) == 1 and isinstance(st.targets[0], ast.Name)):
+            return False
+        v = st.value
+        fresh = isinstance(v, ast.Constant) or (isinstance(v, (ast.List, ast.Tuple, ast.Set)) and not v.elts) or (isinstance(v, ast.Dict) and not v.keys) or (isinstance(v, ast.Call) and isinstance(v.func, ast.Name) and v.func.id in ('list', 'dict', 'set') and v.func.id not in binds and not v.args and not v.keywords)
+        return fresh and st.targets[0].id not in captured and st.targets[0].id not in params
+
+    for seq in list(_code_blocks(fn)):
+        for k in range(1, len(seq)):
+            st = seq[k]
+            if not initialiser(st):
+                continue
+            x = st.targets[0].id
+            m = k
+            while m > 0 and x not in _names(seq[m - 1]) and not isinstance(seq[m - 1], (ast.Global, ast.Nonlocal)) and not (isinstance(seq[m - 1], ast.Expr) and isinstance(seq[m - 1].value, ast.Constant)):
+                m -= 1
+            if m != k and not all(initialiser(s) for s in seq[m:k]):
+                del seq[k]
+                seq.insert(m, st)
     for seq in list(_blocks(fn)):
         i = 0
         while i < len(seq):
@@ -1709,6 +1919,51 @@ def split_loop_rebindings(fn: ast.AST) -> None:
                 for n in ast.walk(s_):
                     if isinstance(n, ast.Name) and n.id == x:
                         n.id = new
+
+
+def split_block_rebindings(fn: ast.AST) -> None:
+    """``x = f(x)`` inside a block (an if arm, a with body - not a loop) where x is dead once the block is left - no
+    statement that can run afterwards mentions it: from that binding on x is a variable of its own."""
+    counter = 0
+    if any(isinstance(n, (ast.Global, ast.Nonlocal)) for n in ast.walk(fn)):
+        return
+    closure_names: set = set()
+    for n in ast.walk(fn):
+        if n is not fn and isinstance(n, FUNC + (ast.Lambda, ast.ClassDef, ast.GeneratorExp, ast.ListComp, ast.SetComp, ast.DictComp)):
+            closure_names |= {x.id for x in ast.walk(n) if isinstance(x, ast.Name)} | {x.arg for x in ast.walk(n) if isinstance(x, ast.arg)}
+
+    def names(nodes) -> set:
+        return {x.id for n in nodes for x in ast.walk(n) if isinstance(x, ast.Name)} | {x.name for n in nodes for x in ast.walk(n) if isinstance(x, ast.ExceptHandler) and x.name}
+
+    def visit(seq: list, later: set, top: bool, counters: typing.Optional[set] = None) -> None:
+        """``later``: names mentioned by anything that may run after ``seq`` is left.  Inside a ``for`` body only the loop's
+        own target variables qualify (``counters``): the loop header binds them anew before the next round reads them."""
+        nonlocal counter
+        for k, st in enumerate(seq):
+            after = later | names(seq[k + 1:])
+            if isinstance(st, ast.If):
+                visit(st.body, after, False, counters)
+                visit(st.orelse, after, False, counters)
+            elif isinstance(st, (ast.With, ast.AsyncWith)):
+                visit(st.body, after, False, counters)
+            elif isinstance(st, ast.For) and not any(isinstance(x, ast.Name) and isinstance(x.ctx, ast.Load) for x in ast.walk(st.target)):
+                visit(st.body, after | names(st.orelse), False, {x.id for x in ast.walk(st.target) if isinstance(x, ast.Name)})
+            if top or not (isinstance(st, ast.Assign) and len(st.targets) == 1 and isinstance(st.targets[0], ast.Name)):
+                continue
+            x = st.targets[0].id
+            if x in later or x in closure_names or x not in names([st.value]) or (counters is not None and x not in counters):
+                continue
+            if any(isinstance(n, ast.Name) and n.id == x and isinstance(n.ctx, (ast.Store, ast.Del)) for s_ in seq[k + 1:] for n in ast.walk(s_)):
+                continue
+            counter += 1
+            new = f'{x}__k{counter}'
+            st.targets[0].id = new
+            for s_ in seq[k + 1:]:
+                for n in ast.walk(s_):
+                    if isinstance(n, ast.Name) and n.id == x:
+                        n.id = new
+
+    visit(fn.body, set(), True)
 
 
 def split_arm_variables(fn: ast.AST) -> None:
@@ -2120,6 +2375,7 @@ def normal_form(fn: ast.AST, sigs: typing.Optional[SignatureIndex] = None, owner
         fold_inplace_sort(node)
         unfold_for_else(node)
         unfold_generator_loops(node)
+        unfold_next_search(node)
         sink_returns(node)
         absorb_into_try_else(node)
         flatten_conditionals(node)
@@ -2130,6 +2386,7 @@ def normal_form(fn: ast.AST, sigs: typing.Optional[SignatureIndex] = None, owner
         split_final_rebindings(node)
         split_loop_rebindings(node)
         split_arm_variables(node)
+        split_block_rebindings(node)
         sort_independent_assignments(node)
         hoist_nested_defs(node)
         guard = 0
